@@ -125,6 +125,12 @@ pub struct GraphSpec {
     /// the first rejected pair, earlier pairs of the batch stay.
     #[serde(default)]
     pub batches: Vec<(Vec<(usize, usize)>, Kind)>,
+    /// How the functions are inserted: 0 = one `add_fn` call each; 1 = `add_fns`
+    /// calls of arity 3 (the remainder by one smaller `add_fns` call); 2 =
+    /// alternately an `add_fns` call of arity 2 and an `add_fn` call.  Ids and
+    /// everything else must not depend on it.
+    #[serde(default)]
+    pub add_mode: u8,
 }
 
 impl GraphSpec {
@@ -360,7 +366,7 @@ pub fn ref_data_edges(spec: &GraphSpec, user: &[(usize, usize, Kind)]) -> Vec<(u
 /// ignored (builder properties check the results themselves).
 pub fn build_graph(spec: &GraphSpec) -> FnGraph<TestFn> {
     let mut b = FnGraphBuilder::new();
-    let ids: Vec<FnId> = spec.fns.iter().cloned().map(|f| b.add_fn(f)).collect();
+    let ids: Vec<FnId> = add_all_fns(&mut b, spec);
     for &(a, c, k) in &spec.edges {
         let _ = match k {
             Kind::Logic => b.add_logic_edge(ids[a], ids[c]),
@@ -371,6 +377,33 @@ pub fn build_graph(spec: &GraphSpec) -> FnGraph<TestFn> {
     apply_batches(&mut b, &ids, &spec.batches);
     let _watched = crate::watch::build_guard(spec);
     b.build()
+}
+
+/// Insert the spec's functions the way `add_mode` says (single or batch calls).
+pub fn add_all_fns(b: &mut FnGraphBuilder<TestFn>, spec: &GraphSpec) -> Vec<FnId> {
+    let fns = &spec.fns;
+    let mut ids: Vec<FnId> = Vec::with_capacity(fns.len());
+    let mut i = 0;
+    let mut turn = 0usize;
+    while i < fns.len() {
+        let left = fns.len() - i;
+        let take = match spec.add_mode {
+            1 => left.min(3),
+            2 => {
+                turn += 1;
+                if turn % 2 == 1 { left.min(2) } else { 0 }
+            }
+            _ => 0,
+        };
+        match take {
+            3 => ids.extend(b.add_fns([fns[i].clone(), fns[i + 1].clone(), fns[i + 2].clone()])),
+            2 => ids.extend(b.add_fns([fns[i].clone(), fns[i + 1].clone()])),
+            1 if spec.add_mode == 1 => ids.extend(b.add_fns([fns[i].clone()])),
+            _ => ids.push(b.add_fn(fns[i].clone())),
+        }
+        i += take.max(1);
+    }
+    ids
 }
 
 /// Apply the spec's batch calls through the real batch API; returns per batch
